@@ -38,19 +38,24 @@ ASSUMPTIONS = [
 
 TROUBLE = ["'", '"', '\\', '$', '$$', '${x}', '$(id)', '`id`', ';', '&', '&&x', '|', '*', '?', '[a]', '{a,b}', '~', '!', '#', '# c', '%', '^',
            '<', '>', '=', ':', '@', '@@', 'a@b', '-D\\', 'a b', ' a', 'a ', '  ', '', '\t', "it's", 'say "hi"', '\\n', '\\\\', 'a\\b', '%s', '$out', '$in',
-           'é', '漢', '\U0001f600', 'é', '-', '--', '-x=y', 'a;b', 'a|b', '$ ', ' $', "'$x'", '"$x"', '\\"', "\\'", '(', ')', '()']
+           'é', '漢', '\U0001f600', 'é', '-', '--', '-x=y', '--help', '-h', '--capture', '--c', '--feed=x', '--f', '--unpickle', '--u=1', 'a;b', 'a|b', '$ ', ' $', "'$x'", '"$x"', '\\"', "\\'", '(', ')', '()']
 TEMPLATE_RE = re.compile(r'@[A-Z_]+[0-9]*@')
 META = set('\'"\\$`;&|*?[]{}~!#%^<>=: \t\n()@')
 
 DUMP_PY = r'''#!/usr/bin/env python3
 import sys, os, json
 argv = sys.argv[1:]
-i = argv.index('--')
-opts, payload = argv[:i], argv[i + 1:]
-o = dict(zip(opts[0::2], opts[1::2])) if len(opts) % 2 == 0 else {}
-flags = set()
-if len(opts) % 2:
-    raise SystemExit('dump.py: bad options %r' % (opts,))
+if argv and argv[0].startswith('opts:'):
+    # single-argument form (no `--` anywhere in the command line: nothing shields the payload from an option parser
+    # of a wrapper that sits in front of this program)
+    o = {'--' + kv.split('=', 1)[0]: kv.split('=', 1)[1] for kv in argv[0][5:].split('|')}
+    payload = argv[1:]
+else:
+    i = argv.index('--')
+    opts, payload = argv[:i], argv[i + 1:]
+    o = dict(zip(opts[0::2], opts[1::2])) if len(opts) % 2 == 0 else {}
+    if len(opts) % 2:
+        raise SystemExit('dump.py: bad options %r' % (opts,))
 rec = {'id': o.get('--id'), 'argv': payload, 'env': {k: v for k, v in os.environ.items() if k.startswith('VERIF_E')}, 'cwd': os.getcwd()}
 if o.get('--stdin') == 'yes':
     rec['stdin'] = sys.stdin.buffer.read().hex()
@@ -143,6 +148,7 @@ def cases(draw: T.Any) -> dict:
         'proj_args': draw(args_list(hi=3)),
         'glob_args': draw(args_list(hi=3)),
         'nl_in_cargs': draw(st.sampled_from([False] * 11 + [True])),
+        'twotok': draw(st.lists(st.sampled_from(['x', 'A_1', 'v=1', 'inc dir', 'q']), min_size=2, max_size=4)),
     }
     return c
 
@@ -161,6 +167,14 @@ def compile_arg_lists(c: dict) -> T.Dict[str, T.List[str]]:
     return d
 
 
+def twotok_pairs(c: dict) -> T.Dict[str, T.List[T.Tuple[str, str]]]:
+    """the two-token spelling of an option (-D NAME, -U NAME, -isystem DIR), used more than once per target and at two
+    levels: option and operand must stay together, in order, every time"""
+    tt = c.get('twotok') or []
+    return {'c_args': [(['-D', '-U', '-isystem'][i % 3], f'TT{i}{a}') for i, a in enumerate(tt)],
+            'proj_args': [('-D', 'TTP0'), ('-isystem', 'ttpinc'), ('-D', 'TTP1')] if tt else []}
+
+
 def twin_lists(c: dict) -> T.Tuple[T.List[str], T.List[str]]:
     a = list(c['rt_tw']) + ['a\nb']
     b = [a[0] + ' ' + a[1]] + a[2:]
@@ -173,14 +187,16 @@ def build_files(c: dict, logdir: str) -> T.Dict[str, T.Union[str, bytes]]:
     lines = ["project('argv', 'c', default_options: ['warning_level=0'])",
              "dump = find_program('dump.py')",
              f"add_global_arguments({mlist(ca['glob_args'])}, language: 'c')",
-             f"add_project_arguments({mlist(ca['proj_args'])}, language: 'c')"]
+             f"add_project_arguments({mlist(ca['proj_args'] + [t for pr in twotok_pairs(c)['proj_args'] for t in pr])}, language: 'c')"]
     plain = f"[dump, '--log', {L}, '--id', 'ct_plain', '--touch', '@OUTPUT@', '--', {mlist(c['ct_plain'])}"
     if c['use_andand']:
         plain += f", '&&', dump, '--log', {L}, '--id', 'ct_plain2', '--', {mlist(c['ct_plain2'])}"
     plain += ']'
     lines.append(f"custom_target('ct_plain', output: 'ct_plain.out', command: {plain})")
-    lines.append(f"custom_target('ct_cap', output: 'ct_cap.out', capture: true, command: [dump, '--log', {L}, '--id', 'ct_cap', '--stdout', 'yes', '--', {mlist(c['ct_cap'])}])")
-    lines.append(f"custom_target('ct_feed', input: 'feed.bin', output: 'ct_feed.out', feed: true, command: [dump, '--log', {L}, '--id', 'ct_feed', '--stdin', 'yes', '--touch', '@OUTPUT@', '--', {mlist(c['ct_feed'])}])")
+    # capture / feed without env or newline: meson runs these through `meson --internal exe --capture/--feed ... -- cmd`
+    # (not pickled); the dumper gets its own options in ONE argument so that the user's arguments follow directly
+    lines.append(f"custom_target('ct_cap', output: 'ct_cap.out', capture: true, command: [dump, {mq('opts:log=' + logdir + '|id=ct_cap|stdout=yes')}, {mlist(c['ct_cap'])}])")
+    lines.append(f"custom_target('ct_feed', input: 'feed.bin', output: 'ct_feed.out', feed: true, command: [dump, {mq('opts:log=' + logdir + '|id=ct_feed|stdin=yes|touch=')} + '@OUTPUT0@', {mlist(c['ct_feed'])}])")
     envd = ', '.join(f"'VERIF_E{i}': {mq(v)}" for i, v in enumerate(c['ct_env']))
     lines.append(f"custom_target('ct_env', output: 'ct_env.out', env: {{{envd}}}, command: [dump, '--log', {L}, '--id', 'ct_env', '--touch', '@OUTPUT@', '--', {mlist(c['ct_env_args'])}])")
     lines.append(f"custom_target('ct_nl', output: 'ct_nl.out', command: [dump, '--log', {L}, '--id', 'ct_nl', '--touch', '@OUTPUT@', '--', {mlist(c['ct_nl'])}])")
@@ -192,7 +208,7 @@ def build_files(c: dict, logdir: str) -> T.Dict[str, T.Union[str, bytes]]:
         lines.append(f"run_target('rt_tw1', command: [dump, '--log', {L}, '--id', 'rt_tw', '--', {mlist(a)}])")
         lines.append(f"run_target('rt_tw2', command: [dump, '--log', {L}, '--id', 'rt_tw', '--', {mlist(b)}])")
     lines.append(f"g = generator(dump, output: '@BASENAME@.h', arguments: ['--log', {L}, '--id', 'gen', '--touch', '@OUTPUT@', '--', {mlist(c['gen'])}])")
-    lines.append(f"executable('e', 'main.c', g.process('gin.txt'), c_args: [{mlist(ca['c_args'])}], link_args: [{mlist(ca['link_args'])}])")
+    lines.append(f"executable('e', 'main.c', g.process('gin.txt'), c_args: [{mlist(ca['c_args'] + [t for pr in twotok_pairs(c)['c_args'] for t in pr])}], link_args: [{mlist(ca['link_args'])}])")
     tenv = ', '.join(f"'VERIF_E{i}': {mq(v)}" for i, v in enumerate(c['test_env']))
     lines.append(f"test('t', dump, args: ['--log', {L}, '--id', 'test', '--', {mlist(c['test'])}], env: {{{tenv}}})")
     return {'meson.build': '\n'.join(lines) + '\n', 'dump.py': DUMP_PY, 'main.c': 'int main(void) { return 0; }\n', 'gin.txt': 'x\n',
@@ -446,6 +462,18 @@ def check_case(c: dict, workdir: str, ev: T.Optional[Evidence], confirm_sub: boo
                     return Failure(f'{ident}/{gname}-args-differ{"/rsp" if c["rsp"] else ""}', c,
                                    f'{ident} ({gname} arguments, rsp={c["rsp"]}): {why}\n expected (in order, once each): {exp_l!r}\n received: {got!r}\n$ {rr.command}')
                 pos_results.append((f'{ident}/{gname}{"/rsp" if c["rsp"] else ""}', lst))
+            if ident == 'compile':
+                for gname, pairs in (('project', twotok_pairs(c)['proj_args']), ('target', twotok_pairs(c)['c_args'])):
+                    last = -1
+                    for opt, operand in pairs:
+                        idx = [k for k, a in enumerate(got) if a == operand]
+                        if len(idx) != 1 or idx[0] == 0 or got[idx[0] - 1] != opt or idx[0] < last:
+                            return Failure(f'compile/{gname}-two-token-option-split{"/rsp" if c["rsp"] else ""}', c,
+                                           f'compile ({gname} arguments): the pair {opt!r} {operand!r} (two-token spelling, used several times) does not '
+                                           f'arrive together / once / in order\n pairs given: {pairs!r}\n received: {got!r}\n$ {rr.command}')
+                        last = idx[0]
+                    if pairs:
+                        pos_results.append((f'compile/{gname}-two-token', [t for pr in pairs for t in pr]))
         # tests, for real
         shutil.rmtree(os.path.join(logdir), ignore_errors=True)
         os.makedirs(logdir)
